@@ -301,3 +301,11 @@ Theorem C11_witness_cachelock :
   creachable false nounlink_state /\ (count (in_cache_section 5) (thr nounlink_state) = 1) /\ (cenabled nounlink_state 2 = false).
 Proof. exact cache_lock_witness. Qed.
 Print Assumptions C11_witness_cachelock.
+
+(* failed open() of the lock file (EMFILE, EACCES, ...) is an event of Model/FlockInode.v (c_fail): the requester is refused
+   and never enters the section, so C11_cachelock_exclusive covers the states after such failures too *)
+Theorem C11_witness_cachelock_open_fault :
+  creachable false open_fault_state /\ (count (in_cache_section 5) (thr open_fault_state) = 1) /\
+  (exists th1, cthr_at open_fault_state 1 th1 /\ c_pc th1 = C_Done) /\ (cenabled open_fault_state 2 = false).
+Proof. exact cache_lock_open_fault_witness. Qed.
+Print Assumptions C11_witness_cachelock_open_fault.
